@@ -54,6 +54,9 @@ INTEGER_decode_oer(const asn_codec_ctx_t *opt_codec_ctx,
 
     if(req_bytes > size) {
         ASN__DECODE_STARVED;
+    } else if(req_bytes == 0) {
+        /* X.696 #10: there is at least one octet of the value */
+        ASN__DECODE_FAILED;
     }
 
     if(ct.positive) {
